@@ -4,6 +4,7 @@ package main
 
 import (
 	"fmt"
+	"strings"
 	"go/constant"
 	"go/token"
 	"go/types"
@@ -57,7 +58,7 @@ func (x *Exec) step(st *State, fr *Frame, ins ssa.Instruction) ([]*State, bool) 
 			comp, cs := x.elemComp(arr.Elem())
 			h := x.heapGet(st, comp, cs)
 			es := x.TI.SortOf(arr.Elem())
-			st.heap[comp] = Store(h, id, App("(as const "+string(ArraySort(SInt, es))+")", ArraySort(SInt, es), x.TI.Zero(arr.Elem())))
+			st.heap[comp] = Store(h, id, x.zeroRow(es, x.TI.Zero(arr.Elem())))
 			set(ins, Val{Loc: &Loc{kind: locArr, addr: id, root: arr.Elem(), n: arr.Len()}})
 			return adv()
 		}
@@ -149,7 +150,7 @@ func (x *Exec) step(st *State, fr *Frame, ins ssa.Instruction) ([]*State, bool) 
 		comp, cs := x.elemComp(el)
 		es := x.TI.SortOf(el)
 		h := x.heapGet(st, comp, cs)
-		st.heap[comp] = Store(h, id, App("(as const "+string(ArraySort(SInt, es))+")", ArraySort(SInt, es), x.TI.Zero(el)))
+		st.heap[comp] = Store(h, id, x.zeroRow(es, x.TI.Zero(el)))
 		set(ins, Val{T: MkSlice(id, IntLit(0), ln, cp)})
 		return adv()
 	case *ssa.MakeMap:
@@ -514,4 +515,21 @@ func (x *Exec) stepNext(st *State, fr *Frame, ins *ssa.Next) ([]*State, bool) {
 	fr.vals[ins] = Val{Tuple: []Val{{T: ok}, {T: k}, {T: v}}}
 	fr.idx++
 	return nil, true
+}
+
+// zeroRow: an array whose every element is the zero value.  A constant-array literal is used when the zero value is an
+// SMT value; otherwise (strings / interfaces inside) a named array with a defining axiom (cvc5 rejects non-value const arrays).
+func (x *Exec) zeroRow(es Sort, zero *Term) *Term {
+	as := ArraySort(SInt, es)
+	txt := zero.String()
+	if !strings.Contains(txt, "strlit_") && !strings.Contains(txt, "iface_nil") {
+		return App("(as const "+string(as)+")", as, zero)
+	}
+	name := "zerorow_" + mangleSort(es)
+	if _, ok := x.U.funcs[name]; !ok {
+		x.U.Declare(name, as)
+		k := Var("zk", SInt)
+		x.U.AddAxiom(name, Forall([]*Term{k}, Eq(Select(App(name, as), k), zero), []*Term{Select(App(name, as), k)}))
+	}
+	return App(name, as)
 }
